@@ -57,6 +57,8 @@ type Graph struct {
 	Returns []*ast.ReturnStmt
 	Defers  []*ast.DeferStmt
 	condEdges []CondEdge
+	flags     []*types.Var          // bool locals only ever assigned constants
+	flagIdx   map[*types.Var]int
 }
 
 // mayReturn: calls to panic and a few process-ending functions do not return.
@@ -301,6 +303,7 @@ func (g *Graph) buildDefs() {
 		}
 		return true
 	})
+	g.findFlags()
 	// reaching definitions
 	nb := len(g.Blocks)
 	g.in = make([]map[*types.Var]map[int]bool, nb)
@@ -497,24 +500,33 @@ type Cut map[Edge]bool
 // visited in order; returning true stops propagation through that node (the
 // node itself counts as reached).
 func (g *Graph) reach(start Point, cut Cut, stop func(p Point, n ast.Node) bool, visit func(p Point, n ast.Node)) {
-	type item struct{ b, i int }
-	seenStart := map[int]bool{}
+	type item struct {
+		b, i int
+		fs   string // values of the pure boolean flags: '?', 't', 'f' per flag
+	}
+	seenStart := map[[2]interface{}]bool{}
+	init := make([]byte, len(g.flags))
+	for i := range init {
+		init[i] = '?'
+	}
 	var work []item
-	work = append(work, item{start.B, start.I})
+	work = append(work, item{start.B, start.I, string(init)})
 	first := true
 	for len(work) > 0 {
 		it := work[len(work)-1]
 		work = work[:len(work)-1]
 		if it.i == 0 {
-			if seenStart[it.b] {
+			k := [2]interface{}{it.b, it.fs}
+			if seenStart[k] {
 				continue
 			}
-			seenStart[it.b] = true
+			seenStart[k] = true
 		} else if !first {
 			continue
 		}
 		first = false
 		b := g.Blocks[it.b]
+		fs := []byte(it.fs)
 		stopped := false
 		for i := it.i; i < len(b.Nodes); i++ {
 			p := Point{it.b, i}
@@ -525,6 +537,7 @@ func (g *Graph) reach(start Point, cut Cut, stop func(p Point, n ast.Node) bool,
 				stopped = true
 				break
 			}
+			g.flagTransfer(b.Nodes[i], fs)
 		}
 		if !stopped {
 			// the block's end is a point of its own (used for edge sources)
@@ -543,9 +556,132 @@ func (g *Graph) reach(start Point, cut Cut, stop func(p Point, n ast.Node) bool,
 			if cut[Edge{it.b, si}] {
 				continue
 			}
-			work = append(work, item{int(s.Index), 0})
+			nfs, feasible := g.flagEdge(b, si, fs)
+			if !feasible {
+				continue
+			}
+			work = append(work, item{int(s.Index), 0, nfs})
 		}
 	}
+}
+
+// findFlags collects the bool locals that are only ever assigned the
+// constants true/false (pure flags); reachability tracks their values so that
+// "stop := false; if c { stop = true }; if stop { break }" is as precise as
+// "if c { break }".
+func (g *Graph) findFlags() {
+	g.flagIdx = map[*types.Var]int{}
+	cand := map[*types.Var]bool{}
+	bad := map[*types.Var]bool{}
+	for _, d := range g.defs {
+		b, ok := d.Var.Type().Underlying().(*types.Basic)
+		if !ok || b.Kind() != types.Bool {
+			continue
+		}
+		switch d.Kind {
+		case DefZero:
+			cand[d.Var] = true
+		case DefPlain:
+			if d.RHS != nil {
+				if cv := g.Fn.ConstVal(d.RHS); cv != nil && cv.Kind() == 1 {
+					cand[d.Var] = true
+					continue
+				}
+			}
+			bad[d.Var] = true
+		default:
+			bad[d.Var] = true
+		}
+	}
+	for v := range cand {
+		if bad[v] || g.addrTaken[v] {
+			continue
+		}
+		g.flags = append(g.flags, v)
+	}
+	sort.Slice(g.flags, func(i, j int) bool { return g.flags[i].Pos() < g.flags[j].Pos() })
+	for i, v := range g.flags {
+		g.flagIdx[v] = i
+	}
+}
+
+func (g *Graph) flagTransfer(n ast.Node, fs []byte) {
+	if len(g.flags) == 0 {
+		return
+	}
+	for _, d := range g.defsAt[n] {
+		i, ok := g.flagIdx[d.Var]
+		if !ok {
+			continue
+		}
+		switch d.Kind {
+		case DefZero:
+			fs[i] = 'f'
+		case DefPlain:
+			if cv := g.Fn.ConstVal(d.RHS); cv != nil && cv.ExactString() == "true" {
+				fs[i] = 't'
+			} else {
+				fs[i] = 'f'
+			}
+		}
+	}
+}
+
+// flagEdge refines the flag state along edge si of block b; feasible is false
+// when the edge contradicts a known flag value.
+func (g *Graph) flagEdge(b *cfg.Block, si int, fs []byte) (string, bool) {
+	if len(g.flags) == 0 || len(b.Succs) != 2 || len(b.Nodes) == 0 {
+		return string(fs), true
+	}
+	cond, ok := b.Nodes[len(b.Nodes)-1].(ast.Expr)
+	if !ok {
+		return string(fs), true
+	}
+	switch p := g.parent[cond].(type) {
+	case *ast.IfStmt:
+		if p.Cond != cond {
+			return string(fs), true
+		}
+	case *ast.ForStmt:
+		if p.Cond != cond {
+			return string(fs), true
+		}
+	case *ast.CaseClause:
+		sw, ok := g.parent[g.parent[p]].(*ast.SwitchStmt)
+		if !ok || sw.Tag != nil {
+			return string(fs), true
+		}
+	default:
+		return string(fs), true
+	}
+	pol := si == 0
+	e := ast.Unparen(cond)
+	for {
+		u, ok := e.(*ast.UnaryExpr)
+		if !ok || u.Op != token.NOT {
+			break
+		}
+		pol = !pol
+		e = ast.Unparen(u.X)
+	}
+	v := g.localVar(e)
+	if v == nil {
+		return string(fs), true
+	}
+	i, ok := g.flagIdx[v]
+	if !ok {
+		return string(fs), true
+	}
+	want := byte('f')
+	if pol {
+		want = 't'
+	}
+	if fs[i] != '?' && fs[i] != want {
+		return "", false
+	}
+	out := append([]byte{}, fs...)
+	out[i] = want
+	return string(out), true
 }
 
 // Reachable reports whether target can be reached from start without crossing
